@@ -27,6 +27,14 @@
 //     negotiated) x API {never called, (true) before every message, (false) then (true) before
 //     every message, (false)/(true) alternating between messages} x both roles x message lists; the
 //     reference decoder judges the wire by what was NEGOTIATED (RSV1 is illegal otherwise).
+//   - part F: payload release of the receiver {off, Upgrader.ReleasePayload,
+//     Engine.ReleaseWebsocketPayload} x executor behind Conn.Execute {inline, queued jobs run after
+//     the Parse call that queued them, after the whole feed} x allocator {track: poisons, never
+//     recycles; wsgen.Recycler: the next fitting Malloc returns the buffer freed last} over
+//     sequences of 2-3 messages (with / without a ping between them, compression off / level 1,
+//     both roles, OnDataFrame also set for a subset), fed in one piece, at the structural cuts,
+//     byte-at-a-time and in chunks of 31 / 140 bytes. Payloads are compared when the callback runs
+//     and, while release is off, again after the feed (the slice OnMessage was handed).
 //   - the allocator is a dimension: sender and receiver are run under the tracking allocator
 //     (buffers grow in place, as with the stock pool) and, for the bases allocWanted selects and the
 //     segmentations of allocSegs, also under mempool.NewAligned() (a growing Append returns a NEW
@@ -496,11 +504,11 @@ func segPolicy(tier string, c *caseSpec, b *built, seqPart bool) (wsgen.SegOpt, 
 	o := wsgen.SegOpt{BytesMax: 4096, StructFrames: 2, DoubleFrames: 1}
 	if c.Release != "" || c.Exec != "" || c.Alloc == wsgen.AllocLIFO {
 		// part F: what matters is how many frames / messages one read carries: everything in one
-		// piece, the structural cuts (all frames; thorough: every single cut), byte-at-a-time, and
-		// chunks that carry a few frames each
+		// piece, the structural cuts of all frames, byte-at-a-time, and chunks that carry a few
+		// frames each
 		o.StructFrames, o.Chunks = 0, []int{31, 140}
 		if thorough {
-			o.AllSingleMax = 2048
+			o.Chunks = []int{7, 31, 140, 300}
 		}
 		return o, false
 	}
@@ -1084,7 +1092,7 @@ func main() {
 	}
 	vkit.Main(&vkit.Spec{
 		Property: "C12", Level: "model_checking",
-		Rule: "one case = (sender role, frame limit F, compression setting, message list, control-frame placement) x one segmentation of the sender's real wire bytes fed to a real receiver Conn.Parse; enumerated: F in {1,2,125,126,1000,32768} x lengths {0,1,2,125,126,127,65535,65536,F-1,F,F+1,2F,2F+1} x {text,binary} x both roles x {off, levels -2..9} x 4 content classes; F in {65535,65536,131072} x lengths {65535,65536,65537,F-1,F,F+1,2F+1} (64-bit length form; quick: compression {off,1} x content {ramp,lowcomp}); all sequences of 1-3 messages over a 6-message subset with ping/pong between or spliced inside the next fragmented message; (compression enabled locally, negotiated) in {(no,no),(yes,no),(yes,yes),(no,yes)} x receiver enabled/not x Conn.EnableWriteCompression usage {never, (true), (false)(true), alternating} x both roles x 18 message lists (thorough: 78); allocator in {tracking (grow in place), mempool.NewAligned(), tracking + MoveOnGrow, mempool.NewSTD()} for sender and receiver (quick: the other three for every sequence/variant/negotiation base and the single-message sub-matrix compression {off,1} x content {ramp,lowcomp}, over one piece, structural cuts of the first and last two frames, byte-at-a-time and chunks of 3/31/1021/4093 bytes; thorough: every base, over every single cut for wires <= 300 B, structural cuts of four frames at each end otherwise, byte-at-a-time and chunks of 3/7/31/33/1021/4093 bytes); segmentations: one piece, every single cut (wires <= 2 KiB; structural cuts otherwise), double cuts (all for wires <= 48 B, structural pairs otherwise), byte-at-a-time (wires <= 4 KiB), fixed chunks for long wires. A case is non-trivial when the wire has more than one frame, is compressed, is longer than 127 bytes or was fed in more than one Parse call. states = distinct private parser states after the Parse calls of the feed, transitions = Parse calls.",
+		Rule: "one case = (sender role, frame limit F, compression setting, message list, control-frame placement) x one segmentation of the sender's real wire bytes fed to a real receiver Conn.Parse; enumerated: F in {1,2,125,126,1000,32768} x lengths {0,1,2,125,126,127,65535,65536,F-1,F,F+1,2F,2F+1} x {text,binary} x both roles x {off, levels -2..9} x 4 content classes; F in {65535,65536,131072} x lengths {65535,65536,65537,F-1,F,F+1,2F+1} (64-bit length form; quick: compression {off,1} x content {ramp,lowcomp}); all sequences of 1-3 messages over a 6-message subset with ping/pong between or spliced inside the next fragmented message; (compression enabled locally, negotiated) in {(no,no),(yes,no),(yes,yes),(no,yes)} x receiver enabled/not x Conn.EnableWriteCompression usage {never, (true), (false)(true), alternating} x both roles x 18 message lists (thorough: 78); payload release {off, Upgrader.ReleasePayload, Engine.ReleaseWebsocketPayload} x executor {inline, jobs deferred to after the Parse call, to after the feed} x allocator {tracking, immediately recycling LIFO} over 48 sequences of 2-3 messages (thorough 252) x ping between or not x compression {off,1} x both roles; allocator in {tracking (grow in place), mempool.NewAligned(), tracking + MoveOnGrow, mempool.NewSTD()} for sender and receiver (quick: the other three for every sequence/variant/negotiation base and the single-message sub-matrix compression {off,1} x content {ramp,lowcomp}, over one piece, structural cuts of the first and last two frames, byte-at-a-time and chunks of 3/31/1021/4093 bytes; thorough: every base, over every single cut for wires <= 300 B, structural cuts of four frames at each end otherwise, byte-at-a-time and chunks of 3/7/31/33/1021/4093 bytes); segmentations: one piece, every single cut (wires <= 2 KiB; structural cuts otherwise), double cuts (all for wires <= 48 B, structural pairs otherwise), byte-at-a-time (wires <= 4 KiB), fixed chunks for long wires. A case is non-trivial when the wire has more than one frame, is compressed, is longer than 127 bytes or was fed in more than one Parse call. states = distinct private parser states after the Parse calls of the feed, transitions = Parse calls.",
 		Assumptions: []string{
 			"text messages carry valid UTF-8 (a text message with invalid UTF-8 is rejected by design, C13)",
 			"the receiver uses an inline executor; CloseAndClean is performed by the harness after a Parse error or once the implementation closed the conn, as the engine does",
@@ -1092,6 +1100,7 @@ func main() {
 			"control frames spliced inside a fragmented message are produced by reordering the sender's own frame writes (a legal peer behaviour that nbio's WriteMessage itself never produces)",
 			"what may be on the wire is decided by what the handshake negotiated: RSV1 on a connection that did not negotiate permessage-deflate is illegal whatever is enabled locally and whatever the application asked for with EnableWriteCompression; on a connection that negotiated it a message may be sent compressed or not",
 			"the combination 'not enabled locally, but negotiated' (reachable through the public NewClientConn/NewServerConn constructors and, for a client, by a server that answers with an extension that was not offered) is enumerated for the sender only; a receiver has compression enabled whenever it was negotiated",
+			"part F: a deferred executor runs the queued jobs in order, after the Parse call (or the whole feed) has returned - one of the schedules a poller's executor can produce; with payload release on the application may use the payload only until its callback returns, so it is compared inside the callback only; with release off it is compared again after the feed",
 			"allocator dimension: the receiver's and the sender's behaviour must not depend on which mempool.Allocator is installed (Engine.BodyAllocator / mempool.DefaultMemPool); a failure that does not occur under the tracking allocator carries the allocator in its signature",
 			"quick tier: the full single-cut enumeration is applied to compression settings {off,-2,1,9} and wires of at most 24 frames; other levels / wires of more frames get structural cuts (first and last 3 frames); double cuts for uncompressed sequences and ramp content; messages that need more than 4096 frames (64 KiB with F<=2) are reduced to content classes ramp/lowcomp and compression {off,0,1} and fed in chunks (one-piece feed only for uncompressed ramp); thorough lifts this",
 		},
